@@ -316,9 +316,9 @@ func ruleResetOnFailure(c *Ctx) {
 
 	// updateAllocator: ¬ok(UpdateTSO) ⇒ ResetAllocatorGroup before returning
 	upd := am("updateAllocator")
-	failed := &failEv{okEv: newOkEv(upd, "UpdateTSO failed", callMatcher(updateTSO))}
+	settled := newSettledEv(upd, "UpdateTSO", callMatcher(updateTSO))
 	reset := &calledEv{name: "ResetAllocatorGroup called", match: instrCallMatcher(resetGroup)}
-	c.need(rule, upd, "return", isRet, []Ev{failed, reset}, func(h []bool) bool { return !h[0] || h[1] },
+	c.need(rule, upd, "return", isRet, []Ev{settled, reset}, anyOf,
 		"if UpdateTSO returned an error the allocator group is reset before returning")
 	if len(callsIn(upd, false, updateTSO)) == 0 {
 		c.Undec(rule, "UpdateTSO call in "+fnName(upd), "found", "", "")
@@ -353,6 +353,44 @@ func ruleResetOnFailure(c *Ctx) {
 		}
 	}
 }
+
+// settledEv: no matching call is outstanding — every matching call executed so
+// far was followed by the success edge of a test of its error. "If the call
+// failed then X" is written  settled ∨ X : it also covers code that never
+// tests the error at all (the call stays outstanding).
+type settledEv struct{ *okEv }
+
+func newSettledEv(fn *ssa.Function, name string, isCall func(*ssa.Call) bool) *settledEv {
+	return &settledEv{newOkEv(fn, name, isCall)}
+}
+func (s *settledEv) Name() string { return s.okEv.name + " not failed/untested" }
+func (s *settledEv) Instr(st uint8, ins ssa.Instruction) uint8 {
+	if c, ok := ins.(*ssa.Call); ok && s.isCall(c) {
+		return st | bPEND
+	}
+	return st
+}
+func (s *settledEv) Edge(st uint8, from *ssa.BasicBlock, succ int) uint8 {
+	if st&bPEND == 0 {
+		return st
+	}
+	if iff, ok := from.Instrs[len(from.Instrs)-1].(*ssa.If); ok {
+		cond, pos := normCond(iff.Cond, succ == 0)
+		if b, ok := cond.(*ssa.BinOp); ok && (b.Op == token.EQL || b.Op == token.NEQ) {
+			var tested ssa.Value
+			if isNilConst(b.Y) {
+				tested = b.X
+			} else if isNilConst(b.X) {
+				tested = b.Y
+			}
+			if tested != nil && s.carriers[tested] && (b.Op == token.EQL) == pos {
+				return st &^ bPEND
+			}
+		}
+	}
+	return st
+}
+func (s *settledEv) Holds(st uint8) bool { return st&bPEND == 0 }
 
 // failEv: the error edge of a matching call was taken (the dual of okEv).
 type failEv struct{ *okEv }
